@@ -348,6 +348,7 @@ func runTCPConn(auth service.StreamAuthenticateFunc, sp *tcpConnSpec, tee *promT
 	}
 	ob.Port = port
 	tout := genBytes(sp.TOut[0], uint32(sp.TOut[1]))
+	var clientRaw int64 // bytes the client has received so far
 	tStart := time.Now()
 	var tmu sync.Mutex
 	targetDone := make(chan struct{})
@@ -393,6 +394,10 @@ func runTCPConn(auth service.StreamAuthenticateFunc, sp *tcpConnSpec, tee *promT
 			if sp.TReset {
 				read() // the client has finished: the upload direction ends cleanly
 				c.Write(tout)
+				// reset only once the client has everything (ciphertext is longer than plaintext)
+				for w := 0; w < 400 && atomic.LoadInt64(&clientRaw) < int64(len(tout)); w++ {
+					time.Sleep(5 * time.Millisecond)
+				}
 				time.Sleep(30 * time.Millisecond)
 				c.(*net.TCPConn).SetLinger(0) // RST: the download direction ends with an error
 				c.Close()
@@ -496,6 +501,7 @@ func runTCPConn(auth service.StreamAuthenticateFunc, sp *tcpConnSpec, tee *promT
 					atomic.StoreInt64(&firstDown, time.Since(start).Milliseconds())
 				}
 				raw.Write(buf[:n])
+				atomic.AddInt64(&clientRaw, int64(n))
 			}
 			if err != nil {
 				if err == io.EOF {
@@ -693,8 +699,8 @@ func tcpConnTerm(sp *tcpConnSpec, port int) string {
 		}
 		kind = fmt.Sprintf("CHonest %d %d %d %d %d %s %s %d", sp.C, sp.S, sp.Seed, sp.AKind, port, cListT("(N * N)", cs), cBool(sp.Coalesce), corrupt)
 	}
-	return fmt.Sprintf("{| k_kind := %s; k_fin := %s; k_validate := %s; k_connect_ok := %s; k_tout := (%d, %d); k_tlate := (%d, %d) |}",
-		kind, cBool(sp.Fin), cBool(sp.Validate), cBool(sp.ConnectOK), sp.TOut[0], sp.TOut[1], sp.TLate[0], sp.TLate[1])
+	return fmt.Sprintf("{| k_kind := %s; k_fin := %s; k_validate := %s; k_connect_ok := %s; k_tout := (%d, %d); k_tlate := (%d, %d); k_treset := %s |}",
+		kind, cBool(sp.Fin), cBool(sp.Validate), cBool(sp.ConnectOK), sp.TOut[0], sp.TOut[1], sp.TLate[0], sp.TLate[1], cBool(sp.TReset))
 }
 
 // boundNotListening reserves a TCP port with a socket that is bound but not listening:
